@@ -36,6 +36,16 @@ impl Check for C14 {
         // every (interval, timeout) pair of the grid is visited in turn; the rest is seeded
         let interval = SECS[(idx % 7) as usize];
         let tout = SECS[((idx / 7) % 7) as usize];
+        if idx % 6 == 5 {
+            // the same grid through the real Client (which derives the monitor's settings from the pool
+            // settings) against the real Server over a link with a fixed one-way delay
+            let dmax = tout * 450_000;
+            let delay_us = *g.pick(&[1_000u64, dmax, dmax / 2, std::cmp::min(dmax, interval * 700_000)]);
+            let mut net = crate::tierb::calm_net(&mut g);
+            net["pipe"] = json!({"capacity": 1u64 << 40, "rcut_ppm": 0, "wcut_ppm": 0, "one_byte_ppm": 0, "pend_ppm": 0, "lat": [0, 0]});
+            return json!({"net": net, "tier": "B", "interval_s": interval, "timeout_s": tout, // the round trip also has to fit the 30 s the client waits for the answer to its open
+                "delay_us": std::cmp::min(10_000_000, std::cmp::max(1_000, delay_us)), "traffic": g.chance(40)});
+        }
         let mut net = gen_net(&mut g, false, true);
         net["pipe"] = json!({"capacity": 1 << 20, "rcut_ppm": *g.pick(&[0u64, 300_000]), "wcut_ppm": 0, "one_byte_ppm": 0, "pend_ppm": 0, "lat": [0, 0]});
         // one-way delay: from 1 ms up to 0.45 x timeout (so that an answer always arrives in time)
@@ -61,6 +71,9 @@ impl Check for C14 {
     }
     fn run<'a>(&'a self, plan: &'a Value) -> ScenFut<'a> {
         Box::pin(async move {
+            if plan["tier"] == "B" {
+                return run_through_client(plan).await;
+            }
             let mut out = Outcome::ok();
             let interval = plan["interval_s"].as_u64().unwrap_or(1);
             let tout = plan["timeout_s"].as_u64().unwrap_or(1);
@@ -296,4 +309,61 @@ impl Check for C14 {
     fn assumptions(&self) -> Vec<&'static str> {
         vec!["the grid mirrors what the command line accepts: whole seconds >= 1", "60 ms of slack is added to the timeout+interval bound for scheduling perturbation"]
     }
+}
+
+
+/// Oracle A through the real Client: pool settings (check interval, idle timeout) become the monitor's
+/// (interval, timeout); a healthy server behind a link with one-way delay d (2d < timeout) must never
+/// be closed by the monitor.
+async fn run_through_client(plan: &Value) -> Outcome {
+    use crate::tierb::*;
+    let mut out = Outcome::ok();
+    reset_process_state().await;
+    let interval = plan["interval_s"].as_u64().unwrap_or(1);
+    let tout = plan["timeout_s"].as_u64().unwrap_or(1);
+    let d = plan["delay_us"].as_u64().unwrap_or(1000);
+    // only the client <-> server link is slow
+    anytls_simnet::world::with(|w| {
+        w.net.pipe_cfg_for = Some(Box::new(move |a| if a == server_addr() { Some(PipeCfg { capacity: 1 << 40, latency_us: (d, d), ..PipeCfg::default() }) } else { None }));
+    });
+    let padding = factory(DEFAULT_SCHEME);
+    start_server(padding.clone());
+    let _internet = start_internet(|_| Tgt::Echo);
+    // a large minimum keeps the pool's reaper (same settings) from closing anything
+    let cfg = anytls_rs::client::SessionPoolConfig { check_interval: Duration::from_secs(interval), idle_timeout: Duration::from_secs(tout), min_idle_sessions: 16 };
+    let client = make_client(padding, cfg, PASSWORD);
+    sleep(Duration::from_millis(1)).await;
+    let (st, se) = match timeout(Duration::from_secs(600), client.create_proxy_stream(("198.51.100.14".to_string(), 80))).await {
+        Ok(Ok(x)) => x,
+        other => {
+            out.viol("harness", "setup", format!("request through the delayed link failed: {:?}", other.map(|r| r.map(|_| ()).map_err(|e| e.to_string()))));
+            return out;
+        }
+    };
+    let t_ready = now_us();
+    if plan["traffic"].as_bool().unwrap_or(false) {
+        let (se2, sid) = (se.clone(), st.id());
+        anytls_simnet::spawn(async move {
+            for i in 0u64.. {
+                if se2.write_data_frame(sid, Bytes::from(content(i, 200))).await.is_err() {
+                    break;
+                }
+                sleep(Duration::from_millis(400)).await;
+            }
+        });
+    }
+    let horizon = t_ready + 14 * std::cmp::max(interval, 1) * 1_000_000 + 4 * d;
+    let step = std::cmp::max(5_000, interval * 25_000);
+    while now_us() < horizon {
+        if se.is_closed() {
+            let rel = if tout < interval { "timeout<interval" } else if tout == interval { "timeout=interval" } else { "timeout>interval" };
+            out.viol("healthy-closed", format!("healthy-closed:through-client:{}", rel), format!("pool settings check interval {} s / idle timeout {} s, one-way delay {} us to a healthy server: the session was closed {} ms after it was established", interval, tout, d, (now_us() - t_ready) / 1000));
+            break;
+        }
+        sleep(Duration::from_micros(step)).await;
+    }
+    out.nontrivial = true;
+    out.summary = json!({"tier": "B", "interval_s": interval, "timeout_s": tout, "delay_us": d, "closed": se.is_closed()});
+    drop(st);
+    out
 }
